@@ -21,3 +21,65 @@ PROPS["C36"] = {
     "trusted_base": ["verus 0.2026.09.13 + z3", "vstd specifications of Vec indexing and ranges"],
     "explanation": "no-false-negative contract of the bloom filter proved for every size, hash count and insert history",
 }
+
+PROPS["C28"] = {
+    "verus": ["auth"],
+    "kani": [],
+    "level": "proof",
+    "level_text": "Unbounded Verus proof over the six authorization functions of src/auth.rs and the real Role/KgRole/Statement/MetaCommand definitions, all sliced from /repo on every run; payload types are opaque, so the result holds for every statement value. Lattice, viewer-read-only and admin-only clauses are theorems over the function contracts.",
+    "level_note": "trusted: Verus+Z3; the classification mutates_persistent/admin_only is written from the property statement; global Viewer gate defers data statements to the per-KG gate (the per-KG viewer clause is the one proved read-only); the handler's use of these functions is not covered (C27)",
+    "technique": "Verus contracts (ensures) on functions extracted from /repo each run, erasure-checked; theorems over the contracts",
+    "aux_failure": "violation",
+    "functions_under_contract": ["src/auth.rs: authorize_kg_operation, authorize_kg_editor, authorize_kg_viewer, authorize_statement, authorize_non_admin, authorize_non_admin_meta",
+                                 "types extracted verbatim: auth::Role, auth::KgRole, statement::Statement, statement::meta::MetaCommand"],
+    "assumptions": [
+        "which statements 'change persistent state' / are 'admin-only' is the spec's classification (mutates_persistent, admin_only), written from the property text",
+        "payload types (InsertOp, Rule, QueryGoal, ...) are opaque stubs: decisions cannot depend on payloads (a payload-dependent decision would not type-check against the stubs => exit 2)",
+        "interpolants W1 = !mutates && !admin_only (viewer <= W1 <= editor) and W2 = !admin_only (editor <= W2 <= owner): an editor that denies a non-mutating statement, or an owner that denies a non-admin statement, is reported even if the lower role denies it too",
+        "how the request handler combines the two gates is not covered (C27 not applicable)",
+    ],
+    "trusted_base": ["verus 0.2026.09.13 + z3"],
+    "explanation": "role lattice + viewer read-only + admin-only, for every Statement value",
+}
+
+PROPS["C32"] = {
+    "verus": ["insert_dedup"],
+    "kani": [],
+    "level": "proof",
+    "level_text": "Unbounded Verus proof of the dedup loop of KnowledgeGraph::insert_in_memory (statement region sliced from /repo each run): the stored vector stays duplicate-free, its contents become old ∪ batch (in-batch duplicates included), new_count + dup_count = batch size and new_count = growth. Insert clause only; delete / conditional delete / update clauses are not decided.",
+    "level_note": "trusted: Verus+Z3; Vec::contains is membership under PartialEq; Tuple's derived PartialEq/Clone are element-wise (C31 covers Value); the map lookup binding `existing_tuples`, and that the counters reach the caller unchanged, are outside the region",
+    "technique": "Verus loop invariant on a statement region extracted from /repo each run, erasure-checked",
+    "aux_failure": "violation",
+    "functions_under_contract": ["src/storage_engine/mod.rs: KnowledgeGraph::insert_in_memory — region: counter declarations + `for tuple in tuples {..}`"],
+    "assumptions": [
+        "slice::contains(x) <=> some element == x (assume_specification)",
+        "Tuple::eq / Tuple::clone are the element-wise liftings (external_body with spec; Value-level laws are C31)",
+        "existing.len() + batch.len() < usize::MAX (requires)",
+        "dropped around the region: HashMap entry lookup binding existing_tuples, metadata update, DD shadow write, snapshot publication, the final Ok((new_count, dup_count))",
+        "delete_in_memory (retain over HashSet<&Tuple>), conditional delete and update (run queries through the engine) are not decided",
+        "insert_in_memory is not shown to be the only writer of input_tuples",
+    ],
+    "trusted_base": ["verus 0.2026.09.13 + z3", "vstd specs of Vec::push/len and the ghost iterator of `for x in vec`"],
+    "explanation": "set invariant + report counts of the insert path",
+}
+
+PROPS["C11"] = {
+    "verus": ["consolidate"],
+    "kani": [],
+    "level": "proof",
+    "level_text": "Unbounded Verus proof of the merge loop of consolidate_to_current (the function a restart replays the durable log through), sliced from /repo each run: for every tuple the net multiplicity of the output equals that of the log, no tuple appears twice, no zero entry remains. This is the recovery-function half of C11; that the write path keeps the log's net multiplicities equal to the live set is not decided.",
+    "level_note": "trusted: Verus+Z3; slice::sort_by groups equal data (replaced by precondition `grouped`, relies on C31); |diff|<=1 and len<2^62 (no i64 overflow); write path (locks + file system) not covered",
+    "technique": "Verus loop invariant on a statement region extracted from /repo each run, erasure-checked",
+    "aux_failure": "violation",
+    "functions_under_contract": ["src/storage/persist/consolidate.rs: consolidate_to_current — region from `let mut write_idx = 0;` to `updates.truncate(write_idx);`",
+                                 "src/storage/persist/batch.rs: struct Update (verbatim)"],
+    "assumptions": [
+        "slice::sort_by leaves equal data adjacent (precondition `grouped`), which needs Tuple::cmp to be a total order consistent with == (C31)",
+        "per-update |diff| <= 1 and log length < 2^62 (no i64 overflow in `+=`)",
+        "Update::clone is field-wise, Tuple::eq is an equivalence with abstract value tv (external_body specs)",
+        "log non-empty (the early return on an empty log is outside the region)",
+        "NOT decided: that insert_tuples_into/delete_tuples_from keep net(log,t) in {0,1} in step with the live set (by reading they do not: +1 is logged for tuples already present); that code is locks + file system",
+    ],
+    "trusted_base": ["verus 0.2026.09.13 + z3", "vstd specs of Vec index/truncate and range iteration"],
+    "explanation": "recovery = { t | net(log,t) > 0 }",
+}
